@@ -209,6 +209,25 @@ def hostile_text(ck, P, rng):
             P.one('hostile-text.sealed', seal(hdr, chain, ptype, keys, rng), crypto=crypto, desc={'inner': chain, 'inner_first': ptype, 'keys': keys})
 
 
+    # structured near-misses: what an "is this a mail address / host name / printable name" pattern almost accepts. A nested or ambiguous repetition
+    # backtracks exponentially on a long run of accepted characters followed by one that is refused; tried with EVERY identity type and in vendor IDs
+    near = []
+    for prefix in (b'', b'a@', b'user@host.', b'cn=', b'gw '):
+        for run in (b'a' * 40, b'a1_-' * 10, b'ab.' * 14, b'a-' * 20, b'x1' * 20 + b'.' + b'y2' * 20):
+            for tail in (b'!', b' ', b'\x00', b'..', b'', b'@', b'\xff'):
+                near.append(prefix + run + tail)
+    for text in near:
+        for ptype, body in [(35, struct.pack('>B3x', t_) + text) for t_ in (2, 3, 11, 9)] + [(43, text)]:
+            n += 1
+            if not ck.mine(n):
+                continue
+            chain = _pl(0, body)
+            hdr = {'spi_i': gen.rb(rng, 8), 'spi_r': gen.rb(rng, 8), 'major': 2, 'minor': 0, 'exch': 35, 'flags': 0x08, 'mid': 1}
+            ck.count('hostile_text.inputs')
+            ck.count('hostile_text.near_misses')
+            P.one('hostile-text.near-miss.clear', codec.enc_header(hdr, ptype, 28 + len(chain)) + chain)
+
+
 def legal_but_unusual(ck, P, rng):
     """(h) thousands of WELL-FORMED messages as a third-party implementation might send them: every payload kind with its legal variety (several proposals /
     transforms, 1-4 selectors of mixed address families, several notify / vendor payloads, payloads in any order, unknown non-critical payloads in between),
@@ -408,6 +427,7 @@ def verdict(ck):
     ck.floor('distinct long proposals parsed by one process', c['longlived.parsed'], 1500)
     ck.floor('well-formed messages in legal but unusual shapes', c['unusual.messages'], 1200)
     ck.floor('inputs with text hostile to pattern matching', c['hostile_text.inputs'], 500)
+    ck.floor('near-miss texts (long accepted run, then a refused octet) in every identity type and vendor IDs', c['hostile_text.near_misses'], 700)
     ck.floor('large extreme shapes', len(ck.sets['large.shapes']), 15)
     ck.floor('large inputs parsed', c['large.inputs'], 40)
     ck.floor('authentic-but-malformed pathologies behind a cleartext payload', c['sealed.pathologies_behind_a_cleartext_payload'], 200)
